@@ -114,6 +114,24 @@ Theorem C13_with_contexts_off_frames :
 Proof. exact P_Options_Frames.frames_model_contexts_off. Qed.
 Print Assumptions C13_with_contexts_off_frames.
 
+(* ... and the frames do not change: for every fault-free configuration (all hook tables, any
+   fuel inside extract), if the extraction WITH contexts returns a stack then the extraction
+   with with_ctx := false (same tables) returns a stack with the same frame ids, hide flags,
+   origins and the same leaf, and none of its frames carries contexts.  Fault-free because the
+   contexts step consumes ticks, so k-th-invocation faults would hit different hook calls in
+   the two runs; error lists may differ (context-hook errors exist only in the first run). *)
+Theorem C13_frames_independent_of_with_contexts :
+  forall c root s,
+    P_Options_Frames.fault_free c ->
+    M_Frames.extract c root = M_Frames.Ok s ->
+    exists s', M_Frames.extract (P_Options_Frames.ctx_off c) root = M_Frames.Ok s'
+      /\ map P_Options_Frames.core (P_Options_Frames.frames_of s')
+         = map P_Options_Frames.core (P_Options_Frames.frames_of s)
+      /\ P_Options_Frames.leaf_of s' = P_Options_Frames.leaf_of s
+      /\ P_Options_Frames.no_cx (P_Options_Frames.frames_of s').
+Proof. exact P_Options_Frames.frames_independent_of_with_contexts. Qed.
+Print Assumptions C13_frames_independent_of_with_contexts.
+
 (* both parameters of the discipline are needed: with a plain global object, or without the
    `finally`, the machine produces an observation that violates the reference semantics *)
 Theorem C13_global_store_refuted :
